@@ -8,13 +8,13 @@ git checkout -q -- . ; rm -f tests/demo_test.rs
 : > $LOG
 if [ -f $OUT/demo_test.rs ]; then cp $OUT/demo_test.rs tests/demo_test.rs; else echo "NO demo_test.rs" >> $LOG; fi
 echo "== demo WITHOUT change" >> $LOG
-cargo test --offline -j 8 --test demo_test >> $LOG 2>&1; echo "demo_without_exit=$?" >> $LOG
+cargo test --offline -j 6 --test demo_test >> $LOG 2>&1; echo "demo_without_exit=$?" >> $LOG
 git apply $OUT/patch.diff || { echo "PATCH DOES NOT APPLY" >> $LOG; exit 2; }
 echo "== demo WITH change" >> $LOG
-cargo test --offline -j 8 --test demo_test >> $LOG 2>&1; echo "demo_with_exit=$?" >> $LOG
+cargo test --offline -j 6 --test demo_test >> $LOG 2>&1; echo "demo_with_exit=$?" >> $LOG
 rm -f tests/demo_test.rs
 echo "== suite WITH change" >> $LOG
-cargo test --workspace --no-fail-fast --offline -j 8 2>&1 | grep -E "^test result|FAILED|failed" >> $LOG; 
+cargo test --workspace --no-fail-fast --offline -j 6 2>&1 | grep -E "^test result|FAILED|failed" >> $LOG; 
 echo "suite_failed_lines=$(grep -c 'FAILED\|[1-9][0-9]* failed' $LOG)" >> $LOG
 git checkout -q -- .
 grep -E "demo_without_exit|demo_with_exit|suite_failed_lines|passed" $LOG | tail -8
